@@ -132,9 +132,25 @@ func C04(c *ev.Ctx) {
 			c.AddSample(map[string]interface{}{"ops": cs.Ops, "real": got, "predecessor_real": pr.V})
 		}
 	}, func(int) {})
-	c.Cov.TracesValidatedAgainstImpl = int64(len(cases))
-	c.Cov.Evaluations = int64(len(cases))
+	// the same stores on a ledger that supplies no canonical references (the field is optional): what the operation store
+	// returns is published all the same, so the results are the same
+	eN := e.WithoutRefs()
+	var noRefs int64
+	ParallelCases(len(cases), 30*time.Second, func(i int) {
+		cs := &cases[i]
+		got, _, _ := eN.Resolve(cs.Ops)
+		mu.Lock()
+		noRefs++
+		mu.Unlock()
+		if !got.Equal(cs.Res) {
+			c.Violation(classify("without-canonical-references:resolve-differs-from-spec", e, cs.Ops, cs.Res, got), map[string]interface{}{"store": e.Describe(cs.Ops), "expected": cs.Res, "observed": got,
+				"note": "no operation carries a canonical reference; published operations come from the operation store, unpublished ones from the unpublished-operation store"})
+		}
+	}, hangReporter(c, func(i int) interface{} { return e.Describe(cases[i].Ops) }))
+	c.Cov.TracesValidatedAgainstImpl = int64(len(cases)) + noRefs
+	c.Cov.Evaluations = int64(len(cases)) + noRefs
 	c.Cov.DistinctNontrivial = nt
+	c.Cov.Extra["stores_resolved_without_canonical_references"] = noRefs
 	c.Cov.Extra["extensions_of_published_deactivated_state"] = extDeact
 	c.Cov.Extra["stores_with_applied_recover_checked"] = recChecked
 	c.Cov.Exhaustive = true
